@@ -8,6 +8,7 @@ import HcipyVerif.Model.FftIndex
 import HcipyVerif.Model.FftSelect
 import HcipyVerif.Model.FftIndexN
 import HcipyVerif.Model.FftState
+import HcipyVerif.Model.FftMulti
 import HcipyVerif.Model.Mft
 import HcipyVerif.Model.Czt
 import HcipyVerif.Model.ZoomN
@@ -57,6 +58,10 @@ Line-protocol front end of the C01 model.
   `shifts = 1`, as the code rebinds `internal_array`); exact rationals.
 * `corestate shifts N M Mo [buf…] j` — `coreState` with the forward kernel on the unit impulse
   at `j`, starting from the previous contents `buf`.
+* `multi [sh,N,M,Mo, sh,N,M,Mo, …] [obj,back,j, obj,back,j, …] g` — `multiImpulse` (`Model/FftMulti.lean`): a population
+  of live FFT objects (four numbers each) with per-object internal arrays, all initially filled with the garbage value
+  `g`, and an interleaved history of calls (three numbers each: object, 0 = forward / 1 = backward, impulse position);
+  answers the FFT core of every call (`runOwn`), calls separated by `|`.
 * `mft fwd|bwd|sumfwd|sumbwd [x…] [y…] [u…] [v…] [w…] j` — `mftForward`/`mftBackward`
   (`Model/Mft.lean`, the two gemm calls) and the defining sums on the unit impulse at flat index `j`;
   `w` with one entry is the scalar-weights branch.  `mft1 fwd|bwd [x…] [u…] [w…] j` — one axis.
@@ -348,6 +353,18 @@ def step (st : St) : List String → St × String
       let a' : Nat → Rat := if sh then ifftshift M a else a
       (st, "ok " ++ showRatList ((List.range M).map a'))
     | _, _, _, _, _ => (st, "bad-op")
+  | ["multi", cfgs, calls, g] =>
+    match parseNatList? cfgs, parseNatList? calls, parseRat? g with
+    | some cf, some cl, some g =>
+      if cf.length % 4 != 0 || cl.length % 3 != 0 || cf.length = 0 then (st, "err value") else
+      let objs : List ObjCfg := (List.range (cf.length / 4)).map fun i =>
+        ⟨cf.getD (4 * i) 0 != 0, cf.getD (4 * i + 1) 0, cf.getD (4 * i + 2) 0, cf.getD (4 * i + 3) 0⟩
+      let cs : List (Nat × Bool × Nat) := (List.range (cl.length / 3)).map fun i =>
+        (cl.getD (3 * i) 0, cl.getD (3 * i + 1) 0 != 0, cl.getD (3 * i + 2) 0)
+      if objs.any (fun o => o.M = 0 || o.N > o.M || o.Mo > o.M || o.N = 0 || o.Mo = 0) then (st, "err value")
+      else if cs.any (fun (o, b, j) => o ≥ objs.length || j ≥ (objs.getD o ⟨false, 1, 1, 1⟩).src b) then (st, "err value")
+      else (st, "ok " ++ "|".intercalate ((multiImpulse objs cs g).map showPSums))
+    | _, _, _ => (st, "bad-op")
   | ["corestate", sh, N, M, Mo, bufs, j] =>
     match parseBool? sh, parseNat? N, parseNat? M, parseNat? Mo, parseRatList? bufs, parseNat? j with
     | some sh, some N, some M, some Mo, some buf, some j =>
